@@ -93,6 +93,15 @@ func attrCases(c *Ctx, n int) {
 			one([]byte(t), 0)
 		}
 	}
+	// arrays and attribute blocks nested to every depth up to 40, closed and cut off
+	for d := 1; d <= 40; d++ {
+		one([]byte("{k="+strings.Repeat("[", d)), 0)
+		one([]byte("{k="+strings.Repeat("[", d)+"1"+strings.Repeat("]", d)+"}"), 0)
+		one([]byte("{k="+strings.Repeat("[", d)+"1"+strings.Repeat("]", d-1)+"}"), 0)
+		one([]byte("{k="+strings.Repeat("[{a=", d)), 0)
+		one([]byte("{k="+strings.Repeat("{a=", d)+"1"+strings.Repeat("}", d)+"}"), 0)
+		one([]byte("# h {k="+strings.Repeat("[", d)+"\n"), 4)
+	}
 	for i := 0; i < n; i++ {
 		var sb strings.Builder
 		pre := c.R.PickS([]string{"", "", " ", "x ", "# h "})
